@@ -3,6 +3,7 @@
    state the comparison correctly (DESIGN.md, trusted base). *)
 From Connectome Require Import Values Attrs VM Edges Store NameSet MemGen MemPickleGen ShardGen ColStore ColumnsGen Columns.
 From Connectome Require Import GraphHashModel.
+From Connectome Require Lru.
 
 Definition which_eqb (a b : which) : bool := match a, b with WH, WH | WC, WC => true | _, _ => false end.
 
@@ -177,8 +178,31 @@ Fixpoint check_mops (c : cache_state) (i : nat) (ops : list (mcop * (option nat 
                     | _, _, _ => true end in
       if ok_hit && Nat.eqb (List.length (entries c')) len then check_mops c' (S i) rest else S i
   end.
+(* the same operation lists against the abstract LRU table of Proofs/Lru.v (the one C08_lru_recency and
+   C08_lru_hit_returns_latest_value are stated over), for bounded caches: hit values and table sizes *)
+Fixpoint check_mops_abs (cap : nat) (t : list (nat * nat)) (i : nat) (ops : list (mcop * (option nat * nat))) : nat :=
+  match ops with
+  | [] => 0
+  | (o, (hit, len)) :: rest =>
+      let '(r, t') := match o with
+                      | OGet k => (snd (Lru.mc_get nat nat Nat.eqb t k), Lru.step nat nat Nat.eqb cap t (Lru.Get nat nat k))
+                      | OSet k v => (None, Lru.step nat nat Nat.eqb cap t (Lru.Set_ nat nat k v))
+                      | OClear | OPickle => (None, Lru.step nat nat Nat.eqb cap t (Lru.Clear nat nat)) end in
+      let ok_hit := match o, r, hit with
+                    | OGet _, Some v, Some w => Nat.eqb v w
+                    | OGet _, None, None => true
+                    | OGet _, _, _ => false
+                    | _, _, _ => true end in
+      if ok_hit && Nat.eqb (List.length t') len then check_mops_abs cap t' (S i) rest else S i
+  end.
 Definition check_memcache (c : option nat * list (mcop * (option nat * nat))) : nat :=
-  check_mops (new_cache (KRam (fst c))) 0 (snd c).
+  match check_mops (new_cache (KRam (fst c))) 0 (snd c) with
+  | 0 => match fst c with
+         | Some (S n) => match check_mops_abs (S n) [] 0 (snd c) with 0 => 0 | S j => 2000 + j end
+         | _ => 0
+         end
+  | r => r
+  end.
 
 (* ---------- shards (C08): regenerated arithmetic against CachedColumn._get_shard; keys are given sorted ---------- *)
 Record shcase := { sh_keys : list string; sh_size : nat; sh_pos : nat;
